@@ -18,6 +18,7 @@ struct far_channel_extras {
 
 struct far_module_extras {
 	uint32 magic;
+	int init_coarse_tempo;	/* Initial coarse tempo from the file header. */
 	int coarse_tempo;
 	int fine_tempo;
 	int tempo_mode;
@@ -49,6 +50,7 @@ void libxmp_far_reset_channel_extras(struct channel_data *);
 void libxmp_far_release_channel_extras(struct channel_data *);
 int  libxmp_far_new_module_extras(struct module_data *);
 void libxmp_far_release_module_extras(struct module_data *);
+void libxmp_far_reset_module_extras(struct module_data *);
 void libxmp_far_extras_process_fx(struct context_data *, struct channel_data *, int, uint8, uint8, uint8, int);
 
 #endif
